@@ -64,6 +64,58 @@ def suite_table(ctx: Ctx) -> SuiteResult:
     return res
 
 
+def suite_status_walk(ctx: Ctx) -> SuiteResult:
+    """ONE provider instance queried along random walks over the flag combinations: the answer must
+    depend on the current flags only (the table is memoryless)."""
+    from pamiq_core.console.system_status import SystemStatusProvider
+    from pamiq_core.thread import ThreadController, ThreadStatus, ThreadStatusesMonitor, ThreadTypes
+    res = SuiteResult("status-walk",
+                      rule="random walks (5-40 steps: pause / resume / one thread acknowledges / clears / "
+                           "shutdown) over the controller events and thread flags with ONE long-lived "
+                           "SystemStatusProvider, queried after a random subset of the steps; non-trivial = the "
+                           "answer changes at least twice along the walk")
+    types = [ThreadTypes.INFERENCE, ThreadTypes.TRAINING]
+    for _ in range(ctx.n(300, 6000)):
+        ctl = ThreadController()
+        sts = [ThreadStatus(), ThreadStatus()]
+        prov = SystemStatusProvider(ctl.read_only, ThreadStatusesMonitor(
+            {types[i]: s.read_only for i, s in enumerate(sts)}))
+        walk, answers, lines, impl = [], [], [], []
+        for _ in range(ctx.rng.randint(5, 40)):
+            op = ctx.rng.choice(["pause", "resume", "ack0", "ack1", "clr0", "clr1", "shutdown", "query", "query"])
+            walk.append(op)
+            if ctl.is_shutdown() and op in ("pause", "resume"):
+                continue
+            if op == "pause": ctl.pause()
+            elif op == "resume": ctl.resume()
+            elif op == "shutdown": ctl.shutdown()
+            elif op.startswith("ack"): sts[int(op[3])].pause()
+            elif op.startswith("clr"): sts[int(op[3])].resume()
+            else:
+                sd, rs = ctl.is_shutdown(), ctl.is_resume()
+                flags = [s.is_pause() for s in sts]
+                got = prov.get_current_status().status_name
+                answers.append(got)
+                lines.append(f"webq status {int(sd)} {int(rs)} [{','.join(str(int(f)) for f in flags)}]")
+                impl.append(got)
+                if got != table(sd, rs, flags):
+                    res.violations.append(Violation(
+                        f"c17:status-memory:{got}", f"after {walk}: status {got} with shutdown={sd} "
+                        f"resume={rs} flags={flags}, expected {table(sd, rs, flags)}", {"walk": walk}))
+        res.evaluations += 1
+        if len({(a, i) for i, a in enumerate(answers) if i and answers[i - 1] != a}) >= 2:
+            res.nontrivial.add(tuple(walk))
+        if ctx.driver is not None and lines:
+            for ln, a, b in zip(lines, impl, ctx.driver.batch(lines)):
+                if a != b:
+                    res.disagreements.append(Disagreement("status-walk", f"`{ln}`: implementation {a!r}, model {b!r}", {"walk": walk}))
+                    break
+        res.sample({"walk": walk, "answers": answers})
+        if len(res.violations) > 10:
+            break
+    return res
+
+
 def asgi(app, method, path):
     sent = []
     scope = {"type": "http", "asgi": {"version": "3.0"}, "http_version": "1.1", "method": method,
@@ -169,6 +221,8 @@ def replay(ctx, payload):
         return res
     if "table" in case:
         return suite_table(ctx)
+    if "walk" in case:
+        return suite_status_walk(ctx)
     return syscheck.make_replay("C17")(ctx, payload)
 
 
@@ -186,7 +240,7 @@ if __name__ == "__main__":
                            "Pamiq.WebQ.status_paused", "Pamiq.WebQ.status_pausing", "Pamiq.WebQ.status_resuming",
                            "Pamiq.WebQ.status_active", "Pamiq.WebQ.status_shutting_down",
                            "Pamiq.WebQ.reader_truthful_partial", "Pamiq.WebQ.reader_can_report_state_that_never_held"],
-        suites=[suite_table, suite_queue, *sys_suites],
+        suites=[suite_table, suite_status_walk, suite_queue, *sys_suites],
         search=syscheck.make_search("C17", ["C17"]), replay=replay,
         assumptions=syscheck.PROTO_ASSUMPTIONS + [
             "Starlette routing is exercised in-process at the ASGI interface (no sockets, no uvicorn); "
